@@ -306,7 +306,7 @@ static void gen_case(void) {
       if (rng_chance(30) && len + 8 < sizeof s) { memcpy(s, "0xf...f", 7); size_t l2 = rng_below(20); for (size_t i = 0; i < l2; i++) s[7 + i] = alphabet[rng_below(sizeof alphabet - 1)]; len = 7 + l2; }
       else for (size_t i = 0; i < len; i++) s[i] = alphabet[rng_below(sizeof alphabet - 1)];
       nstat[4]++;
-    } else if (k < 90) {
+    } else if (k < 88) {
       /* boundary shapes */
       static const char *shapes[] = {"", ",", ",,", "0x", "0x,", ",0x1", "0x1,", "0xf...f", "0xf...f,", "0xf...f,,", "0xf...fz",
         "0xf...f,0x1,", "0x1,,", "-", "1-", "1-,", "1--2", "0x10-0x20", "010", "08", "1,,2", "1, 2", " 1", "1 ", "3x5", "0xf...f0", "0xf...f00000000",
@@ -314,6 +314,47 @@ static void gen_case(void) {
       const char *sh = shapes[rng_below(sizeof shapes / sizeof shapes[0])];
       len = strlen(sh); memcpy(s, sh, len);
       nstat[5]++;
+    } else if (k < 93) {
+      /* signs and white space inside numbers (cursor-level model: glibc negates modulo 2^64), per format */
+      static const char *signs[] = {"-1", "+1", "-0", "+0", "-", "+", "--1", "+-1", "-+1", " -1", "\t+f", "- 1", "-0x1", "+0x", "-0x", "0x-1", "0x+1",
+        "-ffffffffffffffff", "-10000000000000000", "-ffffffffffffffffffff", "+ffffffffffffffff0", "1,-1", "-1,1", "+f,-2", "-1,-1,-1", "0xf...f,-1",
+        "0xf...f,+0", "0xf...f-1", "0xf...f+1", "0x-f", "1-+2", "+1-+3", "+5", "+1,+2", "1-+", "2,+", "-18446744073709551615", "+0-+0", " +3 , +4",
+        "0xf...f -1", "0x +1", "+0x10-+0x12", "-0-0", "-0,1"};
+      const char *sh = signs[rng_below(sizeof signs / sizeof signs[0])];
+      len = strlen(sh); memcpy(s, sh, len);
+      if (rng_chance(40) && len + 6 < sizeof s) { size_t l2 = 1 + rng_below(5); for (size_t i = 0; i < l2; i++) s[len + i] = "0123456789abcdef,-+ x"[rng_below(21)]; len += l2; }
+      nstat[7]++;
+    } else if (k < 96) {
+      /* long inputs: more words than HWLOC_BITMAP_PREALLOC_ULONGS (the reset must enlarge), many commas, long digit runs */
+      unsigned kind = rng_below(4);
+      if (kind == 0) {            /* hwloc format shape: n groups */
+        unsigned n = 14 + rng_below(40);
+        if (rng_chance(40)) { memcpy(s, "0xf...f,", 8); len = 8; }
+        for (unsigned i = 0; i < n && len + 12 < sizeof s; i++) {
+          if (i) s[len++] = ',';
+          if (rng_chance(80)) len += sprintf((char *) s + len, "0x%08lx", (unsigned long) (rng_next() & 0xffffffffUL));
+        }
+      } else if (kind == 1) {     /* taskset shape: many hex digits */
+        unsigned n = 100 + rng_below(300);
+        if (rng_chance(30)) { memcpy(s, "0xf...f", 7); len = 7; } else if (rng_chance(70)) { memcpy(s, "0x", 2); len = 2; }
+        for (unsigned i = 0; i < n; i++) s[len++] = "0123456789abcdef"[rng_below(16)];
+        if (rng_chance(10)) s[rng_below(len)] = "g,-+ "[rng_below(5)];
+      } else if (kind == 2) {     /* list shape: many ranges, then possibly a bad token far from the end */
+        unsigned n = 5 + rng_below(40), v = 0;
+        for (unsigned i = 0; i < n && len + 24 < sizeof s; i++) {
+          v += 1 + rng_below(40);
+          if (i) s[len++] = rng_chance(80) ? ',' : ' ';
+          if (rng_chance(8)) { s[len++] = "x-,+g"[rng_below(5)]; continue; }
+          len += sprintf((char *) s + len, "%u", v);
+          if (rng_chance(40)) { unsigned w = v + rng_below(30); len += sprintf((char *) s + len, "-%u", w); v = w; }
+        }
+        if (rng_chance(20)) s[len++] = '-';
+      } else {                    /* one very long digit run (overflow saturation in strtoul) */
+        unsigned n = 15 + rng_below(30);
+        if (rng_chance(50)) { memcpy(s, "0x", 2); len = 2; }
+        for (unsigned i = 0; i < n; i++) s[len++] = "0123456789abcdef"[rng_below(rng_chance(50) ? 10 : 16)];
+      }
+      nstat[8]++;
     } else {
       /* raw bytes 1..255 */
       len = rng_below(12);
@@ -346,8 +387,8 @@ int main(int argc, char **argv) {
   fclose(fops); fclose(fout);
   FILE *fs = fopen(argv[4], "w");
   if (fs) {
-    static const char *names[] = {"snprintf.len", "asprintf", "sscanf.printed", "sscanf.mutated", "sscanf.grammar", "sscanf.shapes", "sscanf.bytes"};
-    for (int i = 0; i < 7; i++) fprintf(fs, "%s %lu\n", names[i], nstat[i]);
+    static const char *names[] = {"snprintf.len", "asprintf", "sscanf.printed", "sscanf.mutated", "sscanf.grammar", "sscanf.shapes", "sscanf.bytes", "sscanf.signs", "sscanf.long"};
+    for (int i = 0; i < 9; i++) fprintf(fs, "%s %lu\n", names[i], nstat[i]);
     fclose(fs);
   }
   return 0;
